@@ -479,7 +479,7 @@ def run(ctx):
     ctx.guarded(r, r1_buffers)
     from .. import shapecore as SC_
 
-    r = ctx.rule("R1s", "the shape evaluators re-size their scratch on every call: one row per variable of this tape (at least one), every row - the placeholder row of a variable-free tape included - to this call's batch length", 4)
+    r = ctx.rule("R1s", "the shape evaluators re-size their scratch on every call: one row per variable of this tape (at least one), every row - the placeholder row of a variable-free tape included - to this call's batch length", 3)
     ctx.guarded(r, SC_.r_shape_scratch)
     r = ctx.rule("R2", "reset() of allocator, workspace and tapes re-initialises every field; simplify resets recycled storage", 16)
     ctx.guarded(r, r2_resets)
